@@ -93,6 +93,20 @@ def replay_one(beh, sandbox):
         argv += ["-p", SUBST["PFX"]]
     rel = run["file"]["rel"]
     cwd = sandbox
+    # another input earlier on the same command line (its pages land in the same output directory)
+    before = run.get("before", "none")
+    first = None
+    if before == "dir":
+        os.makedirs(os.path.join(sandbox, "other"), exist_ok=True)
+        with open(os.path.join(sandbox, "other", "o1.cmake"), "w") as fh:
+            fh.write("function(o1)\nendfunction()\n")
+        first = os.path.join(sandbox, "other")
+    elif before == "file":
+        with open(os.path.join(sandbox, "lone0.cmake"), "w") as fh:
+            fh.write("function(lone0)\nendfunction()\n")
+        first = os.path.join(sandbox, "lone0.cmake")
+    if first is not None:
+        first = first if (run["mode"] != "single" and run["spelling"] in ("abs", "dot")) else os.path.relpath(first, sandbox)
     if run["mode"] == "single":
         argv.append(os.path.join("proj", *rel))
         page_path = os.path.join(outdir, ".".join(rel[-1].split(".")[:-1]) + ".rst")
@@ -109,6 +123,8 @@ def replay_one(beh, sandbox):
             cwd = proj
             argv.append(".")
         page_path = os.path.join(outdir, *rel[:-1], ".".join(rel[-1].split(".")[:-1]) + ".rst")
+    if first is not None:
+        argv.insert(len(argv) - 1, first)      # the positional arguments stand together, the other input first
     exc, _ = run_main(argv, cwd, home)
     if exc:
         return {"exc": exc}, argv
